@@ -138,6 +138,22 @@ pub fn run(tier: &str, out: &str) -> i32 {
             writeln!(w, "G {} 16 {}", hex(&clean), p.iter().map(|q| format!("{}:{}", bits(q.0), bits(q.1))).collect::<Vec<_>>().join(",")).unwrap();
         }
     }
+    // lengths at and around round thresholds and whole multiples of 64 Ki
+    for (i, &len) in crate::iters::THRESHOLD_LENGTHS.iter().chain([131_072usize, 131_073, 196_608].iter()).enumerate() {
+        if len > 200_000 {
+            continue;
+        }
+        let s = crate::iters::long_input(len, 500 + i as u64);
+        for k in [2usize, 3, 4] {
+            let mut c = OligoComputer::new("-".into(), "-".into(), k);
+            c.set_norm(k != 3);
+            let v: Vec<String> = c.verif_vectorise_one(&s).iter().map(|x| bits(*x)).collect();
+            writeln!(w, "O {} {} {} {}", hex(&s), k, if k != 3 { 1 } else { 0 }, v.join(",")).unwrap();
+        }
+        if len <= 10_001 || len == 65_537 {
+            kmer_line(&mut w, &s, 4);
+        }
+    }
     // one sequence with more than 2^24 windows, all in one column and spread over three ("OR": unit, length)
     for unit in [&b"A"[..], b"ACG"] {
         for (flag, k) in [(1usize, 3usize), (0, 3), (0, 1)] {
